@@ -176,7 +176,11 @@ def run_case(case):
         for (a, b, d3) in trip:
             for shape, groups in (('triple', [['1', '2', '3']]), ('overlap-first', [['1', '2'], ['1', '3']]),
                                   ('overlap-last', [['2', '1'], ['3', '1']]), ('pair+free', [['1', '2']]),
-                                  ('duplicated', [['1', '2'], ['2', '1']]), ('chain', [['1', '2'], ['2', '3']])):
+                                  ('duplicated', [['1', '2'], ['2', '1']]), ('chain', [['1', '2'], ['2', '3']]),
+                                  # a group and a strict subset of it, in both orders: both are in force
+                                  ('superset-then-subset', [['1', '2', '3'], ['2', '3']]),
+                                  ('subset-then-superset', [['2', '3'], ['1', '2', '3']]),
+                                  ('subset-of-first-two', [['1', '2'], ['3', '1', '2']])):
                 reqs = [mk('1', *a), mk('2', *b), mk('3', *d3)]
                 judge(doc_of(reqs, groups), reqs, groups, f'{shape} {a} {b} {d3} on {case["edges"]} {case["lengths"]}/'
                       f'{case["style"]}', False)
